@@ -168,6 +168,7 @@ func Load(dir, tags string, trustedDir string) (*World, error) {
 			w.CS.ParseContractLines(tf, lines, poss)
 		}
 	}
+	w.CS.ResolveApplies()
 	w.Errors = append(w.Errors, w.CS.Errors...)
 	w.initGhosts()
 	w.registerAllFields()
